@@ -80,7 +80,7 @@ TRound == Is("round") /\ Step /\ UNCHANGED absvars
           /\ Ev.files <= 2 * Ev.segs + 6
           /\ Ev.fds   <= Ev.fds0 + Ev.segs + 6
           /\ Ev.maps  <= Ev.maps0 + Ev.segs + 4
-          /\ Ev.bytes <= 4 * Ev.live + 6 * Ev.maxseg + 65536
+          /\ Ev.bytes <= 3 * Ev.live + 6 * Ev.maxseg + 16384
 
 \* C17: the same program on several file systems
 AllEqual(s) == \A i \in 1..Len(s) : s[i] = s[1]
